@@ -31,24 +31,39 @@ def _cond_coll(cond):
 
 
 def replay_rqs(rqs, seed, frontend="wsgi", prefix="/", backend="tree", principal="/user/"):
-    s = DavSession(frontend=frontend, prefix=prefix, backend=backend, principal=principal)
+    # (a behaviour in which the disk runs full is judged on the served state only, like the
+    #  other fault sessions: an interrupted write may leave the work tree behind the index)
+    faults = any(rq.get("op") == "DiskFull" and rq.get("on") for rq in rqs)
+    s = DavSession(frontend=frontend, prefix=prefix, backend=backend, principal=principal, audit_git=not faults)
     try:
         if backend == "tree":
             # SimSt of DavMC: the usual collections exist
             s.mk("cal1", "calendar")
             s.mk("ab1", "addressbook")
+        full = False          # the model's environment: the disk is full
         for k, rq in enumerate(rqs):
             op = rq.get("op")
             variant = (seed + k) % 3
-            if op == "Put":
+            # under a full disk the write meets the fault at one of its file-system steps
+            # (mutation k, or the k-th file that opens but cannot be written)
+            fault = 0
+            if full:
+                fault = [1, 2, 3, 5, 8, -1, -2, -3][(seed + k) % 8]
+            if op == "Lock":
+                s.lock(rq["c"], True)
+            elif op == "Unlock":
+                s.lock(rq["c"], False)
+            elif op == "DiskFull":
+                full = bool(rq.get("on"))
+            elif op == "Put":
                 data, ct = gamma.model_body(rq["b"], variant=variant)
                 s.put(rq["c"], rq["n"], data, ct=ct, im=_cond(s, rq["im"]), inm=_cond(s, rq["inm"]),
-                      valid=(rq["b"] != 4))
+                      valid=(rq["b"] != 4), fault=fault)
             elif op == "Post":
                 data, ct = gamma.model_body(rq["b"], variant=variant)
                 s.post(rq["c"], data, ct)
             elif op == "Delete":
-                s.delete(rq["c"], rq["n"], im=_cond(s, rq["im"]))
+                s.delete(rq["c"], rq["n"], im=_cond(s, rq["im"]), fault=fault)
             elif op == "Mk":
                 s.mk(rq["c"], rq["kind"])
             elif op == "DeleteColl":
@@ -62,11 +77,12 @@ def replay_rqs(rqs, seed, frontend="wsgi", prefix="/", backend="tree", principal
                     if p == "color":
                         p = "abcolor" if kind == "addressbook" else "calcolor"
                     ops.append((p, VALUES[(x["p"], x["v"])] if x["set"] else None))
-                s.propupdate(rq["c"], ops)
+                s.propupdate(rq["c"], ops, fault=fault)
             elif op == "Retype":
                 s.propupdate(rq["c"], [("resourcetype", {"calendar": "collection,calendar", "addressbook": "collection,addressbook",
                                                          "other": "collection"}.get(rq["kind"], "junk"))])
             elif op == "Restart":
+                full = False
                 s.restart(defaults=bool(rq.get("defaults")))
         return s.trace(seed), s.concrete
     finally:
